@@ -1,16 +1,39 @@
 #!/bin/bash
-# usage: rerun_seeded.sh [id-glob]   Re-runs every kept seeded change against the checks recorded in its
-# meta.json (detected_by) and reports any that is no longer detected. Applies each patch to /repo's working tree
-# and reverts it; /repo must be clean and nothing else may build from it meanwhile.
+# usage: rerun_seeded.sh [id-glob]
+# Re-runs every kept seeded change against the checks recorded in its meta.json (detected_by) and
+# reports any that is no longer detected.  Works on PRIVATE copies so that /repo and /verif stay free:
+#   /tmp/vreg/repo   git worktree of /repo's HEAD (patches are applied and reverted there)
+#   /tmp/vreg/verif  copy of /verif's working tree (without .cache), harness path dependency rewritten
+# Both are removed at the end (KEEP=1 keeps them for a following run).
 set -u
-cd /verif
 pat=${1:-C*}
+R=/tmp/vreg
+if [ ! -d $R/repo ]; then
+  mkdir -p $R
+  git -C /repo worktree add --detach $R/repo HEAD -q || exit 2
+fi
+git -C $R/repo checkout -q --detach "$(git -C /repo rev-parse HEAD)" && git -C $R/repo checkout -q -- .
+mkdir -p $R/verif
+rsync -a --delete --exclude .cache --exclude replays --exclude .git /verif/ $R/verif/
+sed -i "s#path = \"/repo/bigtools\"#path = \"$R/repo/bigtools\"#" $R/verif/harness/vh/Cargo.toml
+export VERIF_REPO=$R/repo BIGTOOLS_SRC=$R/repo/bigtools VERIF_OUT_BASE=$R/verif/.cache/mutant-out
+cd $R/verif
 ok=0; bad=0
 for d in seeded/$pat/; do
   id=$(basename $d)
   [ -f $d/meta.json ] || continue
   checks=$(python3 -c "import json;print(' '.join(json.load(open('$d/meta.json'))['detected_by']))")
-  res=$(tools/run_mutant.sh /verif/$d/patch.diff $checks 2>&1 | grep MUTANT-RESULT)
-  if echo "$res" | grep -q "exit=1 VIOLATION"; then ok=$((ok+1)); echo "SEEDED $id detected ($checks)"; else bad=$((bad+1)); echo "SEEDED $id NOT-DETECTED: $res"; fi
+  ( cd $R/repo && git apply $R/verif/$d/patch.diff ) || { echo "SEEDED $id PATCH-DOES-NOT-APPLY"; bad=$((bad+1)); continue; }
+  res=""
+  for c in $checks; do
+    out=$(./check $c --tier ${TIER:-quick} 2>&1); rc=$?
+    res="$res $c:exit=$rc"
+    [ $rc -eq 1 ] && echo "$out" | grep -q '^VIOLATION' && res="$res(VIOLATION)"
+  done
+  git -C $R/repo checkout -q -- .
+  if echo "$res" | grep -q "exit=1(VIOLATION)"; then ok=$((ok+1)); echo "SEEDED $id detected:$res"; else bad=$((bad+1)); echo "SEEDED $id NOT-DETECTED:$res"; fi
 done
 echo "SEEDED-SUMMARY detected=$ok not_detected=$bad"
+if [ -z "${KEEP:-}" ]; then
+  cd /; git -C /repo worktree remove --force $R/repo; rm -rf $R
+fi
